@@ -63,6 +63,7 @@ type job struct {
 	file     string
 	data     []byte
 	flowUUID []assets.FlowUUID
+	names    []string // contact names by worker (default "Worker n")
 	known    map[string]bool
 }
 
@@ -91,6 +92,26 @@ const syntheticAssets = `{
         {"uuid": "9a1b2c3d-0000-4000-8000-000000000026", "type": "send_msg", "text": "after: @webhook.json @webhook @(parse_json(\"false\")) @(json(webhook))"}],
        "router": {"type": "switch", "operand": "@input.text", "wait": {"type": "msg"}, "cases": [], "categories": [{"uuid": "9a1b2c3d-0000-4000-8000-000000000033", "name": "All", "exit_uuid": "9a1b2c3d-0000-4000-8000-000000000043"}], "default_category_uuid": "9a1b2c3d-0000-4000-8000-000000000033"},
        "exits": [{"uuid": "9a1b2c3d-0000-4000-8000-000000000043"}]}]}
+  ]
+}`
+
+// a location hierarchy in which two states have a district of the same name: lookups scoped to a parent read the shared
+// per-level name index
+const locationAssets = `{
+  "channels": [{"uuid": "57f1078f-88aa-46f4-a59a-948a5739c03d", "name": "Android", "address": "+17036975131", "schemes": ["tel"], "roles": ["send", "receive"], "country": "RW"}],
+  "locations": [{"name": "Rwanda", "aliases": ["Ruanda"], "children": [
+     {"name": "Kigali City", "aliases": ["Kigali"], "children": [{"name": "Gasabo", "children": [{"name": "Gisozi"}, {"name": "Ndera"}]}, {"name": "Nyarugenge", "children": []}]},
+     {"name": "Eastern Province", "aliases": ["East"], "children": [{"name": "Gasabo", "children": [{"name": "Ndera"}, {"name": "Rukara"}]}, {"name": "Kayonza", "children": []}]},
+     {"name": "Northern Province", "aliases": [], "children": [{"name": "Gasabo", "children": [{"name": "Ndera"}]}]}]}],
+  "flows": [
+    {"uuid": "9a1b2c3d-0000-4000-8000-000000000003", "name": "Where", "spec_version": "13.6.0", "language": "eng", "type": "messaging", "revision": 1, "expire_after_minutes": 60, "localization": {},
+     "nodes": [{"uuid": "9a1b2c3d-0000-4000-8000-000000000014", "actions": [
+        {"uuid": "9a1b2c3d-0000-4000-8000-000000000027", "type": "send_msg", "text": "d=@(has_district(\"Gasabo\", contact.name).match) w=@(has_ward(\"Ndera\", \"Gasabo\", contact.name).match) s=@(has_state(contact.name).match) d0=@(has_district(\"Gasabo\").match)"}],
+       "router": {"type": "switch", "operand": "@input.text", "wait": {"type": "msg"}, "cases": [
+          {"uuid": "9a1b2c3d-0000-4000-8000-000000000051", "type": "has_district", "arguments": ["@contact.name"], "category_uuid": "9a1b2c3d-0000-4000-8000-000000000034"}],
+          "categories": [{"uuid": "9a1b2c3d-0000-4000-8000-000000000034", "name": "Found", "exit_uuid": "9a1b2c3d-0000-4000-8000-000000000044"}, {"uuid": "9a1b2c3d-0000-4000-8000-000000000035", "name": "Other", "exit_uuid": "9a1b2c3d-0000-4000-8000-000000000045"}],
+          "default_category_uuid": "9a1b2c3d-0000-4000-8000-000000000035", "result_name": "District"},
+       "exits": [{"uuid": "9a1b2c3d-0000-4000-8000-000000000044", "destination_uuid": "9a1b2c3d-0000-4000-8000-000000000014"}, {"uuid": "9a1b2c3d-0000-4000-8000-000000000045", "destination_uuid": "9a1b2c3d-0000-4000-8000-000000000014"}]}]}
   ]
 }`
 
@@ -157,6 +178,12 @@ func loadJobs(dir string) []job {
 		syn.known[u] = true
 	}
 	jobs = append(jobs, syn)
+	loc := job{file: "synthetic-locations", data: []byte(locationAssets), known: map[string]bool{}, flowUUID: []assets.FlowUUID{"9a1b2c3d-0000-4000-8000-000000000003"},
+		names: []string{"Kigali City", "Eastern Province", "Northern Province", "Kigali"}}
+	for _, u := range uuidRe.FindAllString(locationAssets, -1) {
+		loc.known[u] = true
+	}
+	jobs = append(jobs, loc)
 	return jobs
 }
 
@@ -197,12 +224,24 @@ func work(env envs.Environment, sa flows.SessionAssets, j job, w int) string {
 		}
 	}()
 	fu := j.flowUUID[w%len(j.flowUUID)]
+	if w%2 == 1 {
+		// the other way to a flow: by name, on a cache that may still be cold (contact queries on flow = "..." resolve like this)
+		for _, n := range []string{"Recipients", "Hook", "Where", "Two Questions", "No Such Flow"} {
+			if f, err := sa.Flows().FindByName(n); err == nil && f != nil {
+				out = append(out, "by-name="+n)
+			}
+		}
+	}
 	flow, err := sa.Flows().Get(fu)
 	if err != nil {
 		return "flow-error=" + err.Error()
 	}
 	eng := test.NewEngine()
-	contact := flows.NewEmptyContact(sa, fmt.Sprintf("Worker %d", w), i18n.Language("eng"), nil)
+	name := fmt.Sprintf("Worker %d", w)
+	if len(j.names) > 0 {
+		name = j.names[w%len(j.names)]
+	}
+	contact := flows.NewEmptyContact(sa, name, i18n.Language("eng"), nil)
 	contact.AddURN(urns.URN(fmt.Sprintf("tel:+1206555%04d", 1000+w)), nil)
 	trig := triggers.NewBuilder(env, flow.Reference(false), contact).Manual().Build()
 	s, sp, err := eng.NewSession(sa, trig)
@@ -222,7 +261,7 @@ func work(env envs.Environment, sa flows.SessionAssets, j job, w int) string {
 			break
 		}
 		s = s2
-		msg := flows.NewMsgIn(flows.MsgUUID(uuids.NewV4()), urns.URN(fmt.Sprintf("tel:+1206555%04d", 1000+w)), nil, []string{"red", "3", "yes", "Ryan Lewis"}[(w+k)%4], nil)
+		msg := flows.NewMsgIn(flows.MsgUUID(uuids.NewV4()), urns.URN(fmt.Sprintf("tel:+1206555%04d", 1000+w)), nil, []string{"red", "3", "yes", "Ryan Lewis", "Gasabo", "gasabo please"}[(w+k)%6], nil)
 		sp, err := s.Resume(resumes.NewMsg(nil, nil, msg))
 		if err != nil {
 			out = append(out, "resume-error="+err.Error())
